@@ -362,7 +362,7 @@ if a.tier == "exhaustive":
         f.write("\n".join(lines) + "\n")
     print(json.dumps({"ops": len(lines), "histories": len(hs), "exhaustive_bound": bound}))
 else:
-    N = 450 if a.tier == "quick" else 3000
+    N = 1500 if a.tier == "quick" else 5000
     other = "C18" if a.prop == "C17" else "C17"
     for i in range(N):
         focus = a.prop if rng.random() < 0.8 else other
